@@ -193,6 +193,30 @@ func c06Run(w *verifrt.World, tier Tier) *RunResult {
 	}
 	shared.Concurrent = true
 	verifrt.LiveReset()
+	// a twin WAF from the same configuration serves every second task (half of
+	// the runs with the serial audit writer): two writers then append to one
+	// audit log, and every record must still be there once and whole. (Not with
+	// the concurrent writer: its index entry is three writes under the writer's
+	// own lock, so entries of two writers interleave on the unchanged tree - a
+	// weakness no claimed property states, noted in DESIGN section 7.)
+	serve := func(ti int) *wafHandle { return shared }
+	if auditWriter == "Serial" && w.Sch.Draw(2) == 0 {
+		if twin, err := buildWAF(text); err == nil {
+			twin.Concurrent = true
+			res.count("twin_waf_sharing_audit_log", 1)
+			defer func() {
+				if !res.Tainted {
+					twin.Close()
+				}
+			}()
+			serve = func(ti int) *wafHandle {
+				if ti%2 == 1 {
+					return twin
+				}
+				return shared
+			}
+		}
+	}
 
 	type txResult struct {
 		out  *Outcome
@@ -206,7 +230,7 @@ func c06Run(w *verifrt.World, tier Tier) *RunResult {
 		results[ti] = make([]txResult, len(scripts))
 		fns = append(fns, func() {
 			for si, s := range scripts {
-				o := runTx(shared, s)
+				o := runTx(serve(ti), s)
 				results[ti][si].out = o
 				results[ti][si].excl = o.Excl
 			}
